@@ -100,6 +100,18 @@ def gen(params):
                         yield {"kind": "quote", "name": name, "in": cps}
                     for name in UNQUOTERS:
                         yield {"kind": "unquote", "name": name, "in": cps}
+    elif mode == "width_sweep":
+        # code points by storage width of the text holding them (1-, 2-, 4-byte strings) and by LOW BYTE: every Latin-1
+        # character, and for each low byte b one 2-byte character of three blocks and one 4-byte character, in an otherwise
+        # safe text, doubled after a literal '%', and as the second digit of an escape
+        cps_ = list(range(0x80, 0x100)) + [0x100 * k + b for k in (0x01, 0x04, 0x21) for b in range(256)] + \
+            [0x10000 + b for b in range(128)]
+        for a in cps_:
+            for ctx in ([a], [0x61, 0x62, 0x2E, 0x2D, 0x5F, 0x7E, a], [0x25, a, a], [0x25, 0x34, a]):
+                for name in QUOTERS:
+                    yield {"kind": "quote", "name": name, "in": ctx}
+                for name in UNQUOTERS:
+                    yield {"kind": "unquote", "name": name, "in": ctx}
     elif mode == "unicode_reps":
         for a in UNICODE_REPS:
             for ctx in ([a], [0x61, a], [a, 0x61], [0x25, a, 0x41, 0x42], [a, a], [0x25, 0x34, a]):
